@@ -41,13 +41,15 @@ CONSTANTS Miners,       \* coinbase identities (small integers)
           BaseReward, Fee,
           WorkShares,   \* pool of extra work shares (small integers)
           WSMiner, WSNumber, WSWeight,   \* attributes of the pool's shares (functions over WorkShares)
+          DeepForks,    \* also fork two blocks below the head
           Profiles      \* what a block's miner may ask for: set of <<miner, byte, layout, contract>>
 
 Gen == 0
 VARIABLES blocks,  \* id -> block record (the tree; immutable once mined)
+          led,     \* id -> ledger after that block (a function of the chain; kept to avoid recomputation)
           cur,     \* head
           step, hist
-vars == <<blocks, cur, step, hist>>
+vars == <<blocks, led, cur, step, hist>>
 view == <<blocks, cur, step>>
 Ids == DOMAIN blocks
 
@@ -98,15 +100,8 @@ IssuedFor(id, p, h, unc) ==
            IN  [id |-> id * 10 + i, share |-> seq[i], miner |-> a.miner, byte |-> a.byte, layout |-> a.layout, contract |-> a.contract,
                 amt |-> ShareAmount(seq, i)]]
 
-\* rewards issued on the chain of b that have not arrived yet, in issuance order
-RECURSIVE IssuedOnChain(_, _)
-IssuedOnChain(c, i) == IF i > Len(c) THEN <<>> ELSE blocks[c[i]].issued \o IssuedOnChain(c, i + 1)
-RECURSIVE ArrivedOnChain(_, _)
-ArrivedOnChain(c, i) == IF i > Len(c) THEN <<>> ELSE blocks[c[i]].arrive \o ArrivedOnChain(c, i + 1)
-Outstanding(b) ==
-    LET iss == IssuedOnChain(Chain(b), 1)
-        arr == {ArrivedOnChain(Chain(b), 1)[i].id : i \in 1..Len(ArrivedOnChain(Chain(b), 1))}
-    IN  SelectSeq(iss, LAMBDA r : r.id \notin arr)
+\* rewards issued on the chain of b that have not arrived yet, in issuance order: kept in the ledger (field out)
+Outstanding(b) == led[b].out
 
 ----------------------------------------------------------------------------
 \* the ledger, replayed operationally along the chain
@@ -120,7 +115,10 @@ EmptyLedger == [bal |-> [m \in Miners |-> 0], exists |-> Miners \ NewAccounts,
                 mints |-> {},     \* <<reward id, lock height, amount>>: Qi outputs
                 locks |-> {},     \* [key, rs (set of <<reward id, amount>>), unlock]: live tranche records
                 paid |-> {},      \* [key, rs, height, caller]: claims paid
-                lost |-> {}]      \* reward ids that can never be spent (malformed data, no code, fee not covered)
+                lost |-> {},      \* reward ids that can never be spent (malformed data, no code, fee not covered)
+                arr |-> {},       \* [r, h]: every reward that arrived on this chain, with its arrival height
+                iss |-> <<>>,     \* every reward issued on this chain
+                out |-> <<>>]     \* issued, not yet arrived (in issuance order)
 
 \* RedeemLockedQuai: for each depth in table order, the rewards that arrived Depth blocks ago
 RECURSIVE RedeemSeq(_, _, _, _, _)
@@ -135,14 +133,13 @@ RedeemSeq(L, seq, i, d, h) ==
                    THEN RedeemSeq([L EXCEPT !.bal[r.miner] = @ + a - Fee, !.exists = @ \cup {r.miner}, !.credits = @ \cup {<<r.id, h, a - Fee>>}], seq, i + 1, d, h)
                    ELSE RedeemSeq([L EXCEPT !.lost = @ \cup {r.id}], seq, i + 1, d, h)
 
-RECURSIVE RedeemAll(_, _, _)
-RedeemAll(L, b, k) ==
+RECURSIVE RedeemAll(_, _, _, _)
+RedeemAll(L, p, h, k) ==        \* p: parent of the block being executed, h: its height
     IF k > Len(Depth) THEN L
-    ELSE LET h == blocks[b].height
-             d == Depth[k]
-             a == AncestorAt(b, h - d)
-         IN  IF h <= d \/ a = -1 THEN RedeemAll(L, b, k + 1)
-             ELSE RedeemAll(RedeemSeq(L, blocks[a].arrive, 1, d, h), b, k + 1)
+    ELSE LET d == Depth[k]
+             a == AncestorAt(p, h - d)
+         IN  IF h <= d \/ a = -1 THEN RedeemAll(L, p, h, k + 1)
+             ELSE RedeemAll(RedeemSeq(L, blocks[a].arrive, 1, d, h), p, h, k + 1)
 
 \* Process, coinbase branches, for the rewards that arrive in block b
 LockOf(L, key) == {x \in L.locks : x.key = key}
@@ -184,15 +181,16 @@ ClaimSeq(L, seq, i, h) ==
               IN  ClaimSeq([L EXCEPT !.locks = @ \ recs, !.paid = @ \cup {[key |-> o.key, rs |-> o.rs, height |-> h, caller |-> c.caller]}], seq, i + 1, h)
          ELSE ClaimSeq(L, seq, i + 1, h)
 
-StepLedger(L, b) ==
-    LET h == blocks[b].height
-    IN  ClaimSeq(ArriveSeq(RedeemAll(L, b, 1), blocks[b].arrive, 1, h), blocks[b].claims, 1, h)
-
-RECURSIVE LedgerAt(_)
-LedgerAt(b) == IF b = Gen THEN EmptyLedger ELSE StepLedger(LedgerAt(blocks[b].parent), b)
+StepLedger(L, p, rec) ==
+    LET h  == rec.height
+        L1 == ClaimSeq(ArriveSeq(RedeemAll(L, p, h, 1), rec.arrive, 1, h), rec.claims, 1, h)
+        got == {rec.arrive[i].id : i \in DOMAIN rec.arrive}
+    IN  [L1 EXCEPT !.arr = @ \cup {[r |-> rec.arrive[i], h |-> h] : i \in DOMAIN rec.arrive},
+                   !.iss = @ \o rec.issued,
+                   !.out = SelectSeq(@, LAMBDA r : r.id \notin got) \o rec.issued]
 
 ----------------------------------------------------------------------------
-Init == /\ blocks = (Gen :> GenBlock) /\ cur = Gen /\ step = 0 /\ hist = <<>>
+Init == /\ blocks = (Gen :> GenBlock) /\ led = (Gen :> EmptyLedger) /\ cur = Gen /\ step = 0 /\ hist = <<>>
 
 \* VerifyUncles: a work share may be included if it is recent and not already included by one of the last
 \* InclDepth ancestors (nor twice in the block itself: uncles is a set)
@@ -204,6 +202,7 @@ IncludableShares(p, h) ==
 
 AddBlock(id, rec) ==
     /\ blocks' = blocks @@ (id :> rec)
+    /\ \E L \in {StepLedger(led[rec.parent], rec.parent, rec)} : led' = led @@ (id :> L)
     /\ cur' = id
     /\ step' = step + 1
     /\ hist' = Append(hist, [op |-> "mine", b |-> id, p |-> rec.parent, h |-> rec.height, miner |-> rec.miner, qi |-> IsQi(rec.miner),
@@ -222,7 +221,7 @@ MineBlock(p, m, y, lay, k, unc, n, cl) ==
 
 \* claim attempts worth exploring on parent p: every live or already paid tranche, by every contract (owner or not)
 ClaimCands(p) ==
-    LET L == LedgerAt(p)
+    LET L == led[p]
         keys == {x.key : x \in L.locks} \cup {x.key : x \in L.paid}
     IN  {[caller |-> c, miner |-> k[2], byte |-> k[3], epoch |-> k[4]] : c \in Contracts, k \in keys}
 ClaimLists(p) == {<<>>} \cup {<<c>> : c \in ClaimCands(p)} \cup {<<c, c>> : c \in ClaimCands(p)}
@@ -230,38 +229,40 @@ ClaimLists(p) == {<<>>} \cup {<<c>> : c \in ClaimCands(p)} \cup {<<c, c>> : c \i
 SetHead(b) == /\ b \in Ids /\ b # cur
               /\ cur' = b /\ step' = step + 1
               /\ hist' = Append(hist, [op |-> "sethead", b |-> b])
-              /\ UNCHANGED blocks
+              /\ UNCHANGED <<blocks, led>>
 
-\* forks start at the head or one of its two nearest ancestors; all-or-nothing choices for work shares and arrivals
-Parents == {cur} \cup (IF cur = Gen THEN {} ELSE {blocks[cur].parent})
-                 \cup (IF cur = Gen \/ blocks[cur].parent = Gen THEN {} ELSE {blocks[blocks[cur].parent].parent})
+\* Exploration bounds: a fork starts at the head's parent or grandparent and only while the tree is a path (one reorg
+\* per behaviour); every includable work share is included; outstanding rewards arrive all together or not yet.
+IsPath == Cardinality(Ids) = blocks[cur].height + 1
+Parents == {cur} \cup (IF IsPath /\ cur # Gen THEN {blocks[cur].parent} ELSE {})
+                 \cup (IF IsPath /\ cur # Gen /\ blocks[cur].parent # Gen /\ DeepForks THEN {blocks[blocks[cur].parent].parent} ELSE {})
 Next ==
-    /\ step < MaxBlocks + 2
+    /\ step < MaxBlocks + 1
     /\ \/ \E p \in Parents, pr \in Profiles :
-             \E unc \in {{}, IncludableShares(p, blocks[p].height + 1)}, n \in {0, Len(Outstanding(p))}, cl \in ClaimLists(p) :
-                 MineBlock(p, pr[1], pr[2], pr[3], pr[4], unc, n, cl)
-       \/ \E b \in Ids : SetHead(b) /\ blocks[cur].height > blocks[b].height     \* switch back to a shorter branch only
+             \E n \in {0, Len(Outstanding(p))}, cl \in ClaimLists(p) :
+                 MineBlock(p, pr[1], pr[2], pr[3], pr[4], IncludableShares(p, blocks[p].height + 1), n, cl)
+       \/ \E b \in Ids : SetHead(b) /\ blocks[cur].height > blocks[b].height /\ ~OnChain(b, cur)   \* back to the other branch
 Spec == Init /\ [][Next]_vars
 
 ----------------------------------------------------------------------------
-\* PROPERTY C13 (declarative, on every block of the tree)
-ChainSeq(b) == Chain(b)
-RewardsIssuedOn(b) == IssuedOnChain(Chain(b), 1)
-RewardsArrivedOn(b) == ArrivedOnChain(Chain(b), 1)
-ArrivalHeight(b, rid) == LET c == Chain(b) IN blocks[CHOOSE a \in {c[i] : i \in 1..Len(c)} : \E j \in DOMAIN blocks[a].arrive : blocks[a].arrive[j].id = rid].height
-RewardById(b, rid) == LET s == RewardsArrivedOn(b) IN s[CHOOSE j \in DOMAIN s : s[j].id = rid]
+\* PROPERTY C13 (declarative; stated for the head: every block of the tree is the head when it is mined, and again
+\* after a head switch, so every chain of the tree is judged)
+RewardsIssuedOn(b) == led[b].iss
+ArrOf(b, rid) == CHOOSE x \in led[b].arr : x.r.id = rid
+ArrivalHeight(b, rid) == ArrOf(b, rid).h
+RewardById(b, rid) == ArrOf(b, rid).r
 
 \* a share is rewarded at most once on any chain, and a work share is included at most once on any chain
 ShareRewardedAtMostOncePerChain ==
-    \A b \in Ids :
+    \A b \in {cur} :
         LET iss == RewardsIssuedOn(b) IN
         /\ \A i, j \in DOMAIN iss : i # j => (iss[i].share # iss[j].share /\ iss[i].id # iss[j].id)
         /\ \A x, y \in {Chain(b)[i] : i \in 1..Len(Chain(b))} : x # y => blocks[x].uncles \cap blocks[y].uncles = {}
-        /\ LET arr == RewardsArrivedOn(b) IN \A i, j \in DOMAIN arr : i # j => arr[i].id # arr[j].id
+        /\ \A x, y \in led[b].arr : x.r.id = y.r.id => x = y
 
 \* rewards are issued only for the shares of the block InclDepth below, with the split formula
 RewardAmountIsFormula ==
-    \A b \in Ids \ {Gen} :
+    \A b \in {cur} \ {Gen} :
         LET iss == blocks[b].issued
             exp == ExpectedShares(b)
         IN  /\ Len(iss) = Len(exp)
@@ -270,20 +271,19 @@ RewardAmountIsFormula ==
 
 \* a plain Quai reward is credited in exactly the block Depth[byte] above its arrival: not earlier, not later, once
 CreditExactlyAtUnlock ==
-    \A b \in Ids :
-        LET L == LedgerAt(b) IN
+    \A b \in {cur} :
+        LET L == led[b] IN
         /\ \A c \in L.credits : c[2] = ArrivalHeight(b, c[1]) + Depth[RewardById(b, c[1]).byte + 1]
         /\ \A c, d \in L.credits : c[1] = d[1] => c = d
-        /\ \A j \in DOMAIN RewardsArrivedOn(b) :
-              LET r == RewardsArrivedOn(b)[j] IN
-              (~IsQi(r.miner) /\ r.layout = "plain" /\ ArrivalHeight(b, r.id) + Depth[r.byte + 1] <= blocks[b].height)
-                  => (r.id \in {c[1] : c \in L.credits} \/ r.id \in L.lost)
+        /\ \A x \in L.arr :
+              (~IsQi(x.r.miner) /\ x.r.layout = "plain" /\ x.h + Depth[x.r.byte + 1] <= blocks[b].height)
+                  => (x.r.id \in {c[1] : c \in L.credits} \/ x.r.id \in L.lost)
         /\ \A m \in L.mints : m[2] = ArrivalHeight(b, m[1]) + Depth[RewardById(b, m[1]).byte + 1]
 
 \* with exactly the lockup-adjusted amount (less the account-creation fee once per new account)
 CreditAmountExact ==
-    \A b \in Ids :
-        LET L == LedgerAt(b) IN
+    \A b \in {cur} :
+        LET L == led[b] IN
         /\ \A c \in L.credits :
               LET r == RewardById(b, c[1]) IN c[3] = Adjust(r.amt, r.byte, c[2]) \/ c[3] = Adjust(r.amt, r.byte, c[2]) - Fee
         /\ \A m \in Miners : Cardinality({c \in L.credits : RewardById(b, c[1]).miner = m /\ c[3] # Adjust(RewardById(b, c[1]).amt, RewardById(b, c[1]).byte, c[2])})
@@ -292,8 +292,8 @@ CreditAmountExact ==
 
 \* a tranche is paid only to its owner, only after its unlock height and after its epoch ended, and only once
 ClaimOnlyOwnerAfterUnlockOnce ==
-    \A b \in Ids :
-        LET L == LedgerAt(b) IN
+    \A b \in {cur} :
+        LET L == led[b] IN
         /\ \A p \in L.paid : p.caller = p.key[1] /\ p.key[4] < EpochOf(p.height)
                                /\ \A x \in p.rs : ArrivalHeight(b, x[1]) <= p.height
         /\ \A p, q \in L.paid : p # q => {x[1] : x \in p.rs} \cap {x[1] : x \in q.rs} = {}
@@ -301,17 +301,22 @@ ClaimOnlyOwnerAfterUnlockOnce ==
 
 \* and pays exactly what accumulated in it: every reward that arrived for (contract, miner, byte) in that epoch
 ClaimAmountIsAccumulated ==
-    \A b \in Ids :
-        LET L == LedgerAt(b) IN
+    \A b \in {cur} :
+        LET L == led[b] IN
         \A p \in L.paid :
             {x[1] : x \in p.rs} =
-              {RewardsArrivedOn(b)[j].id : j \in {i \in DOMAIN RewardsArrivedOn(b) :
-                    LET r == RewardsArrivedOn(b)[i] IN
-                    /\ r.layout \in {"contract", "delegate"} /\ r.contract \in Contracts
-                    /\ <<r.contract, r.miner, r.byte, EpochOf(ArrivalHeight(b, r.id))>> = p.key
-                    /\ ArrivalHeight(b, r.id) <= p.height}}
+              {x.r.id : x \in {y \in L.arr : /\ y.r.layout \in {"contract", "delegate"} /\ y.r.contract \in Contracts
+                                            /\ <<y.r.contract, y.r.miner, y.r.byte, EpochOf(y.h)>> = p.key
+                                            /\ y.h <= p.height}}
+
+\* reachability probes (expected to be violated: used to show that the bounded model reaches the interesting states)
+ProbeNoCredit == led[cur].credits = {}
+ProbeNoFeeCredit == \A c \in led[cur].credits : RewardById(cur, c[1]).miner \notin NewAccounts
+ProbeNoPaid == led[cur].paid = {}
+ProbeNoMint == led[cur].mints = {}
+ProbeNoReorgCredit == ~(\E b \in Ids : ~OnChain(b, cur) /\ led[b].credits # {} /\ led[cur].credits # {})
 
 TypeOK == cur \in Ids /\ \A b \in Ids \ {Gen} : blocks[b].parent \in Ids /\ blocks[b].height = blocks[blocks[b].parent].height + 1
 
-EmitHist == IF step' = MaxBlocks + 2 \/ Cardinality(DOMAIN blocks') = MaxBlocks THEN PrintT("@@" \o ToJson(hist')) ELSE TRUE
+EmitHist == IF step' = MaxBlocks + 1 \/ Cardinality(DOMAIN blocks') = MaxBlocks THEN PrintT("@@" \o ToJson(hist')) ELSE TRUE
 =============================================================================
